@@ -110,6 +110,69 @@ theorem findField_mem (s : AccSpec) (n : String) (f : AccField) (h : findField s
   unfold findField at h
   exact ⟨List.mem_of_find?_eq_some h, by have := List.find?_some h; simpa using this⟩
 
+/-! ### executable acceptance on an explicit environment (family `xadm`: the translated tables and the
+     semantics above against Anchor's generated `try_accounts`, run through the real entrypoint) -/
+
+def holdsAttrB (key : String → Nat) (evalKey : String → Nat) (evalBool : String → Bool) (field : String) (a : String × String × String) : Bool :=
+  if a.1 = "address" then key field == evalKey a.2.1
+  else if a.1 = "has_one" then evalKey (field ++ "." ++ a.2.1) == key a.2.1
+  else if a.1 = "constraint" then evalBool a.2.1
+  else true
+
+def acceptsB (spec : AccSpec) (env : Env) : Bool :=
+  spec.fields.all fun f => (f.kind != "Signer" || env.isSigner f.name) && f.attrs.all (holdsAttrB env.key env.evalKey env.evalBool f.name)
+
+theorem holdsAttrB_iff (env : Env) (field : String) (a : String × String × String) :
+    holdsAttrB env.key env.evalKey env.evalBool field a = true ↔ holdsAttr env field a := by
+  unfold holdsAttrB holdsAttr
+  by_cases h1 : a.1 = "address"
+  · simp [h1]
+  · by_cases h2 : a.1 = "has_one"
+    · simp [h2]
+    · by_cases h3 : a.1 = "constraint"
+      · simp [h3]
+      · simp only [h1, h2, h3, if_false]
+
+/-- the executable test decides the specification-level acceptance -/
+theorem acceptsB_iff (spec : AccSpec) (env : Env) : acceptsB spec env = true ↔ accepts spec env := by
+  unfold acceptsB accepts holdsField
+  rw [List.all_eq_true]
+  constructor
+  · intro h f hf
+    have := h f hf
+    simp only [Bool.and_eq_true, Bool.or_eq_true, bne_iff_ne, ne_eq, List.all_eq_true] at this
+    refine ⟨fun hk => ?_, fun a ha => (holdsAttrB_iff env f.name a).mp (this.2 a ha)⟩
+    rcases this.1 with h1 | h1
+    · exact absurd hk h1
+    · exact h1
+  · intro h f hf
+    obtain ⟨h1, h2⟩ := h f hf
+    simp only [Bool.and_eq_true, Bool.or_eq_true, bne_iff_ne, ne_eq, List.all_eq_true]
+    refine ⟨?_, fun a ha => (holdsAttrB_iff env f.name a).mpr (h2 a ha)⟩
+    by_cases hk : f.kind = "Signer"
+    · right; exact h1 hk
+    · left; exact hk
+
+def assocNat (l : List (String × Nat)) (k : String) : Nat :=
+  match l with
+  | [] => 0
+  | (a, v) :: r => if a = k then v else assocNat r k
+
+/-- the environment described by an `xadm` line: per field (key, signer flag), per checked attribute
+    (address / has_one / constraint, in source order) the value the harness read from the real accounts -/
+def envOfLine (spec : AccSpec) (keys : List (Nat × Bool)) (vals : List Nat) : Option Env :=
+  let names := spec.fields.map (·.name)
+  let attrKeys : List (String × String) := spec.fields.flatMap fun f =>
+    (f.attrs.filter fun a => a.1 = "address" || a.1 = "has_one" || a.1 = "constraint").map fun a =>
+      (a.1, if a.1 = "has_one" then f.name ++ "." ++ a.2.1 else a.2.1)
+  if names.length ≠ keys.length || attrKeys.length ≠ vals.length then none
+  else
+    let keyTab := names.zip (keys.map (·.1))
+    let sigTab := names.zip (keys.map fun k => if k.2 then 1 else 0)
+    let valTab := (attrKeys.map (·.2)).zip vals
+    some { key := assocNat keyTab, isSigner := fun n => assocNat sigTab n == 1, evalKey := assocNat valTab,
+           evalBool := fun e => assocNat valTab e == 1 }
+
 /-- model of verify_position_authority / _interface / pino_verify_position_authority:
     the delegate branch is taken only when the authority key equals the delegate -/
 def verifyPositionAuthority (owner : Nat) (delegate : Option Nat) (delegatedAmount : Nat) (authKey : Nat) (authSigner : Bool) : Bool :=
